@@ -139,7 +139,47 @@ def _work(ctx: Ctx, item):
     ctx.hyp(one, configs(pgns, ids), traffic.history(twins=True), st.booleans(), max_examples=n, name="filters")
 
 
+def _twins(ctx: Ctx, item):
+    """Systematic: every ordered pair of sibling definitions whose payloads can agree on everything but the second one's match
+    fields, as the history [a, b, a, b], filtered by id in the four obvious ways."""
+    from .. import gen, wire
+    pgn, = item
+    db = canboat.db()
+    ds = [d for d in db.by_pgn[pgn] if d.supported and d.fixed_layout and d.matches]
+    n = 0
+    for d1 in ds:
+        p1, nb, _ = gen.benign_payload(d1)
+        for d2 in ds:
+            if d2 is d1:
+                continue
+            p2 = p1
+            for off, bits, mv, _ in d2.matches:
+                p2 = (p2 & ~(((1 << bits) - 1) << off)) | (mv << off)
+            nb2 = max(nb, d2.nbytes())
+            if db.select(pgn, p1) is not d1 or db.select(pgn, p2) is not d2:
+                continue
+            items = []
+            dest = 255 if ((pgn >> 8) & 0xFF) >= 240 else 7
+            for rep, (dd, pp, nn) in enumerate(((d1, p1, nb), (d2, p2, nb2), (d1, p1, nb), (d2, p2, nb2))):
+                payload = pp.to_bytes(nn, "little")[:223]
+                if dd.fast:
+                    items += [{"kind": "fastframe", "pgn": pgn, "src": 1, "dest": dest, "data": fr, "msg": rep, "frame": i}
+                              for i, fr in enumerate(wire.segment(payload, rep))]
+                else:
+                    items.append({"kind": "single", "pgn": pgn, "src": 1, "dest": dest, "data": payload[:8], "msg": rep})
+            for mode, entries in (("exclude", [d1.id]), ("exclude", [d2.id.upper()]), ("include", [d2.id]), ("include", [d1.id.lower(), 127250])):
+                ctx.count()
+                n += 1
+                ctx.nt((pgn, d1.id, d2.id, mode))
+                res, dropped, kept = run_case(mode, entries, items)
+                for b, w, c in res:
+                    ctx.report(b + "|twins", w, c)
+    ctx.klass("systematic_twin_cases", n)
+
+
 def run(ctx: Ctx):
+    db0 = canboat.db()
+    pmap(ctx, _twins, [(p,) for p, ds in db0.by_pgn.items() if len(ds) > 1])
     n = 150 if ctx.quick else 6000
     pmap(ctx, _work, [(n,)] * 16)
 
@@ -147,4 +187,5 @@ def run(ctx: Ctx):
 def replay(ctx: Ctx, case):
     res, _, _ = run_case(case["mode"], case["entries"], [traffic.item_from_json(i) for i in case["items"]])
     res2, _, _ = run_case(case["mode"], case["entries"], [traffic.item_from_json(i) for i in case["items"]], True)
-    return res + [r for r in res2 if r[0] not in {x[0] for x in res}]
+    out = res + [r for r in res2 if r[0] not in {x[0] for x in res}]
+    return out + [(b + "|twins", w, c) for b, w, c in out]
